@@ -292,6 +292,9 @@ func (st *SimStream) RemainingBytes() uint64 { return ^uint64(0) }
 // PeerWrite queues bytes towards the system under test and returns the item's
 // sequence number; delivery happens through scheduler-chosen events.
 func (st *SimStream) PeerWrite(b []byte) int {
+	if len(b) == 0 {
+		return -1
+	}
 	return st.enqueue(wireItem{b: append([]byte(nil), b...)})
 }
 
@@ -359,7 +362,9 @@ func (st *SimStream) deliver(ep int) {
 			return 1 + r.IntN(4)
 		}) {
 		case 1:
-			n = 1
+			if n > 1 {
+				n = 1
+			}
 		case 2:
 			if n > 3 {
 				n = 3
